@@ -205,7 +205,7 @@ def bounded(ctx):
 
     # ---- 1. seeded random trees x random lines, oracle = select()
     n_trees = 60 if ctx.quick else 2000
-    n_lines = 80 if ctx.quick else 60
+    n_lines = 80
     ctx.check("select_random",
               "E.trees: %d seeded random trees (depth<=3, fan-out<=3, 0-2 aliases, default/anonymous/hidden/disabled, "
               "own arguments 0/?/1/*/+ inherited along the chain; every 3rd with many competing defaults; every 4th under DefaultApplicationConfig with its "
